@@ -10,6 +10,8 @@ from harness.framework import Suite
 from harness.swctext import Expect
 
 PID = "C16"
+TRANSLATE_ALGO = ["AlgoNode", "AlgoAssemble"]   # regenerated on every run from transforms/branch_tree.py (BranchTreeAssembler.__call__), node.py (detach), tree.py (Node.children)
+DRIVER_FILES = ["SwcVerif/Model/AlgoRunAssemble.lean"]
 LEAN_MODS = ["SwcVerif.Props.C16", "SwcVerif.Props.C16Length", "SwcVerif.Props.C16Pair", "SwcVerif.Props.C16PairLoc", "SwcVerif.Props.C16Asm"]
 THEOREMS = [
     "C16Asm.machine_eq_sub", "C16Asm.assemble_eq", "C16Asm.assemble_sorted", "C16Asm.assemble_wf", "C16Asm.assemble_length", "C16Asm.branch_is_chain",
@@ -610,6 +612,11 @@ class AssembleSuite(Suite):
         num = {int(bt.soma().id): 0}
         queue = [bt.soma()]
         eps = asm.EPS
+        # the input of the GENERATED assembler (driver op `gasm`): the columns of the branch tree, every branch of `x.branches` (numbered in
+        # dictionary order) with its key and its number of samples, the pairing `pair` returns and the two duplicate tests, as tables
+        allbr = [(int(key), br) for key, brs in bt.branches.items() for br in brs]
+        gnum = {id(br): g for g, (_, br) in enumerate(allbr)}
+        pb, pc, fs, fe = [], [], [0] * len(allbr), [0] * len(allbr)
         while queue:
             nd = queue.pop(0)
             pairs = list(asm.pair(bt.branches.get(nd.id, []), nd.children()))
@@ -618,14 +625,21 @@ class AssembleSuite(Suite):
                 e = 1 if np.linalg.norm(br[-1].xyz() - c.xyz()) < eps else 0
                 j = len(order)
                 num[int(c.id)] = j; order.append(j); parent[j] = num[int(nd.id)]; m[j] = len(br) - s - e
+                pb.append(gnum[id(br)]); pc.append(int(c.idx)); fs[gnum[id(br)]] = s; fe[gnum[id(br)]] = e
                 queue.append(c)
+        g = {"ids": [int(v) for v in bt.id()], "pids": [int(v) for v in bt.pid()], "bkey": [k for k, _ in allbr],
+             "blen": [len(br) for _, br in allbr], "pb": pb, "pc": pc, "s": fs, "e": fe}
         y = asm(bt)
-        return {"bt_pids": [parent[j] for j in order], "m": [m[j] for j in order], "pid": [int(v) for v in y.pid()], "id": [int(v) for v in y.id()]}
+        return {"bt_pids": [parent[j] for j in order], "m": [m[j] for j in order], "pid": [int(v) for v in y.pid()], "id": [int(v) for v in y.id()], "g": g}
 
     def lines(self, case, res):
         if "exc" in res:
             return []
-        return [(f"asm pids={gen.ints(res['bt_pids'])} m={gen.ints(res['m'])}", gen.ints(res["pid"]))]
+        g = res["g"]
+        return [(f"asm pids={gen.ints(res['bt_pids'])} m={gen.ints(res['m'])}", gen.ints(res["pid"])),
+                # the GENERATED `BranchTreeAssembler.__call__` on what the real one was handed: same (id, pid) table, one `pair` call per key node
+                ("gasm " + " ".join(f"{k}={gen.ints(g[k])}" for k in ("ids", "pids", "bkey", "blen", "pb", "pc", "s", "e")),
+                 f"{gen.ints(res['id'])} / {gen.ints(res['pid'])} / {len(g['ids'])}")]
 
     def oracle(self, case, res):
         if "exc" in res:
